@@ -74,4 +74,34 @@ PROPS = {
             "observational identity = byte-identical re-serialization plus bit-identical predictions on the dataset the model was fitted on",
         ],
     },
+    "C13": {
+        "harness": "c13_tune",
+        "level": "exploration",
+        "rule": ("one run = either tuner_t::optimize on 1-3 seeded grids (2-31 values, linear/log10) with a seeded landscape (bowl, plateaus, ties, corner minimum, "
+                 "noise) and optionally one injected NaN/inf evaluation, or ml::tune with its internal thread pool under one seeded schedule: 0-3 grids, both "
+                 "tuners, k-fold/random splitters with 2-10 folds, callbacks that record their arguments, yield 0-3 times to the scheduler, return per-invocation "
+                 "unique error/loss tensors and a payload, with one optional fault (NaN, +inf, -inf, exception) attached to one invocation; non-trivial = at "
+                 "least 2 simulated threads and 1 context switch; distinct = distinct trace hash"),
+        "batches": [
+            {"name": "plain", "cfg": "plain", "tiers": ["quick", "thorough"], "runs": {"quick": 24000, "thorough": 1200000},
+             "wall_cap": {"quick": 200, "thorough": 2400}},
+            {"name": "tsan", "cfg": "tsan", "tiers": ["quick", "thorough"], "runs": {"quick": 5000, "thorough": 200000},
+             "extra": ["--set", "max_cores=6"], "wall_cap": {"quick": 200, "thorough": 2400}},
+            {"name": "asan", "cfg": "asan", "tiers": ["quick", "thorough"], "runs": {"quick": 5000, "thorough": 200000},
+             "wall_cap": {"quick": 200, "thorough": 2400}},
+        ],
+        "gate": {"quick": 60, "thorough": 500},
+        "shrink": [("inject", 0), ("max_yields", 0), ("spaces", 1), ("spaces", 0), ("folds", 2), ("samples", 6), ("max_evals", 10), ("cores", 2),
+                   ("sim_faults", 0), ("p_spurious_ppm", 0), ("p_eagain_ppm", 0)],
+        "expected_probes": ["tune_runs", "tune_with_several_trials", "tuner_direct_runs", "callbacks_overlapped_in_time", "four_or_more_callbacks_in_flight",
+                            "callback_exception_propagated", "callback_nonfinite_rejected", "nonfinite_rejected", "budget_overshoot_within_allowance",
+                            "rt_futex_blocked", "rt_mutex_contended", "rt_spurious_wake"],
+        "real": REAL_COMMON + ["tuner_t::optimize (local-search, surrogate), nano::evaluate / local_search, ml::tune and its internal pool_t, ml::result_t, splitters"],
+        "stub": STUB_COMMON + ["the model callback (harness landscape instead of a model fit)"],
+        "assumptions": ASSUME_COMMON + [
+            "splitters are trusted to be deterministic functions of (samples, folds, seed) (C12): the harness recomputes the expected folds with the same splitter",
+            "without parameter spaces no tuner is involved, so a non-finite callback value need not be rejected there",
+            "a lost update on a plain double cannot happen under a serialising scheduler: such races are decided by ThreadSanitizer inside the simulated run",
+        ],
+    },
 }
